@@ -2,7 +2,8 @@
 
 Lattice explorer on the real ``TwoBody`` / ``SpecialPerturbations`` dynamics (``Celestial.propagate`` and
 ``propagateBulk``), both integrators, against (a) the real code called in a different decomposition (split points,
-batch columns, output grids, start-epoch shifts, a stop-and-restart forced by an integration event) and (b) an
+batch columns, output grids, start-epoch shifts, a stop-and-restart forced by an integration event, physics steps of a
+propagation with the library's station keepers attached) and (b) an
 independent closed-form Kepler reference (``verif/oracles/kepler_ref.py``).  ``solveKeplerProblemUniversal`` and the
 helpers of ``physics/orbits/utils.py`` it relies on are compared with the same reference.
 
@@ -86,6 +87,26 @@ Tolerances (all derived here, see ``tol_pos``):
     0.25 s slip exceeds 4 tolerances.  DOP853
     is not eligible: with 12-30 steps per LEO hour its controller noise was measured at up to 0.09 s of equivalent
     epoch slip (RK45: 4.6e-3 s at 300 s, 7.7e-4 s at an hour), so DOP853 configurations are decided by force_epoch.
+* station keeping (propagation WITH StationKeeper events, which the first clause of the property covers as well: the truth of
+  a station-kept satellite must not depend on the physics step).  A keeper is a state-dependent event: it compares the
+  satellite's Earth-fixed longitude / latitude (GEO EW / NS) or its semi-major axis (LEO) with the slot it was built from
+  and, past a documented threshold, applies an impulsive burn.  Decompositions compared: one call over the span against the
+  span cut into equal steps of 60 / 120 / 300 / 600 s, one uneven two-leg split, a (6, 1) batch of one and propagateBulk;
+  before every call the keepers get the FK5 reductions of the call's start instant, as PropagateRegistration.generateSubmission
+  does.  Tolerances: the states of two decompositions agree within tol_pos / tol_vel of the span (the split tolerance above:
+  measured worst ratio 0.012 without burns and with burns at the start of the span).  Burn sequences: same number, same
+  keeper; a burn dv applied dt earlier or later moves the state by dv dt, so the burn times must agree within tol_pos / dv
+  (>= 1e-6 s for the rounding of the time itself) and the sizes within tol_vel.  Independent expectation: the targets are
+  constructed relative to the keepers' documented thresholds with margins of >= 0.048 deg (35 km) / 0.5 km, so whether a
+  burn is due at all, and that a trigger which is already set when a call starts is applied at that very time, is known
+  without the library (table SK_TARGETS).  Scenario level: a satellite whose keepers never trigger must fly bit-identically to
+  the same satellite without keepers (an event function without a sign change does not influence solve_ivp's steps).
+  Known finding F-C03-2 (open): a trigger that arises INSIDE a call is located at the end of the integrator step that saw it
+  (flag-valued event function), so those burn times depend on the decomposition (two-body: 0.08 km after half an hour); the
+  violations of targets whose thresholds are crossed inside the span carry the suffix /trigger_inside_span when a burn
+  strictly inside the span was recorded.  Targets that stay inside their box never get that suffix: the seeded slip "Earth-fixed
+  frame of the keeper frozen at the start of the call" (spurious burn 120 s into every call longer than that) gives 7e-3 km
+  and unexpected burns there, 50 tolerances.
 """
 from __future__ import annotations
 
@@ -117,7 +138,12 @@ from resonaate.dynamics import dynamicsFactory  # noqa: E402
 from resonaate.dynamics.dynamics_base import Dynamics  # noqa: E402
 from functools import partial  # noqa: E402
 
+from resonaate.agents.agent_base import Agent  # noqa: E402
+from resonaate.dynamics.integration_events.event_stack import EventRecord, EventStack  # noqa: E402
 from resonaate.dynamics.integration_events.finite_thrust import ScheduledFiniteBurn, ntwBurn  # noqa: E402
+from resonaate.parallel.key_value_store import KeyValueStore  # noqa: E402
+from resonaate.physics.transforms.reductions import ReductionParams  # noqa: E402
+from resonaate.scenario.config.platform_config import SpacecraftConfig  # noqa: E402
 from resonaate.dynamics.integration_events.scheduled_impulse import ScheduledImpulse  # noqa: E402
 from resonaate.dynamics.special_perturbations import SpecialPerturbations  # noqa: E402
 from resonaate.dynamics.two_body import TwoBody  # noqa: E402
@@ -166,6 +192,19 @@ RULE = (
     "non-trivial when the split differs (D != 0, T > 0 or fractional start) and 0.25 s of epoch exceeds 10 tolerances - and "
     "epoch_resolution - propagated states of two splits under RK45 without SRP within 5 ms of measured epoch sensitivity + "
     "tol_pos/1000; non-trivial when a 0.25 s epoch slip exceeds 4 tolerances. "
+    "Station-keeping family (propagation WITH the library's StationKeeper events GEO EW / GEO NS / LEO, built by "
+    "Agent._createStationKeepers from the slot state at scenario time 0 and given the reductions of every call's start instant "
+    "as PropagateRegistration.generateSubmission does): for every (dynamics: two-body and SP configurations, integrator, target of "
+    "the table SK_TARGETS - GEO on station / inside the 0.5 deg box east and west with a semi-major-axis offset / inclined 0.5 deg / "
+    "outside the box with and without semi-major-axis offset / leaving the box inside the span, LEO on station / 1.5 km low / 3 km "
+    "low / eccentric slot -, start time 0 and 7200 s, span 600 / 1800 / 3600 s) the span is propagated in one call and cut into every "
+    "listed step (60 / 120 / 300 / 600 s) that divides it, as two uneven legs (0.37), as a (6,1) batch of one and through propagateBulk; "
+    "every decomposition is compared with the single call (state within the split tolerance; number, keeper, time and size of the "
+    "burns), with the burns the keepers' documented thresholds call for (none / exactly one at the start / first at the start) and "
+    "with the EventStack records (one per burn); non-trivial when the decomposition differs from the single call and keepers "
+    "are attached. Scenario level: a real truth-only Scenario with global station keeping flies three quiet targets at physics "
+    "steps 600 / 300 / 60 s; truth at the common times 600 / 1200 / 1800 s against the 60 s run (split tolerance) and against "
+    "the same scenario without station keeping (bit-identical). "
     "Distinct by construction (lattice points); VERIF_SEED rotates RAAN/argument of perigee/third anomaly, the SP "
     "start day, the batch column assignment and the orbit assignment of the epoch-split / twin items."
 )
@@ -185,6 +224,13 @@ ASSUMPTIONS = [
     "twin family, event variant: a scenario_step target_addition / sensor_addition event whose start_time is the end "
     "of the step T -> T+dt is applied at clock time T, before that step is propagated (event timing is C01's "
     "subject; a change there shows under the twin/added_by_event signatures only)",
+    "station-keeping family: the burns are observed through a recording wrapper placed on each keeper's getStateChange "
+    "(instance attribute; it returns the library's own value) and through the EventStack records in the key-value store "
+    "(fake-ray seam); whether a burn is due follows from the thresholds documented in station_keeping.py (0.5 deg, 1 deg, "
+    "2 km, 1e-6 / 1e-3 km/s) applied to targets constructed with margins (>= 0.048 deg, 0.5 km) - the burn formulae "
+    "themselves are not re-derived; GEO slots within 2 deg of the +-180 deg meridian are moved (longitude wrap of the "
+    "keeper is not C03's subject); the direct items hand the reductions over by hand the way "
+    "PropagateRegistration.generateSubmission does, the scenario items go through that function itself",
 ]
 EXPECT_MIN_NONTRIVIAL = 10000
 
@@ -252,6 +298,47 @@ ES_PLATFORM = {"type": "spacecraft", "mass": 500.0, "visual_cross_section": 25.0
 TWIN_DT = 300.0
 TWIN_ADD_STEPS = [0, 2, 8]  # the twins are added after this many 300 s steps (T = 0, 600, 2400 s)
 TWIN_AFTER = 2  # steps flown together after the addition
+# ---- station-keeping family: propagation WITH StationKeeper events ("GEO EW" / "GEO NS" / "LEO"), one call against every
+# split into equal steps.  The keepers are built once from the slot state at scenario time 0 (Agent._createStationKeepers,
+# the call the agents make) and get the FK5 reductions of each call's start instant before that call, the way
+# PropagateRegistration.generateSubmission hands them over for every physics step.
+SK_A_GEO = 42164.1696  # km: two-body mean motion = Earth's rotation rate, a slot longitude is kept for days
+SK_STEPS = [60.0, 120.0, 300.0, 600.0]  # physics steps the span is split into (those that divide it and are shorter)
+SK_SPANS = [600.0, 1800.0, 3600.0]
+SK_T0 = [0.0, 7200.0]  # elapsed scenario seconds at the start of the span (0: the keeper's own epoch; 2 h: 30 deg of Earth rotation later)
+SK_T0_THOROUGH = [0.0, 7200.0, 90000.0]
+SK_FRAC = 0.37  # one uneven two-leg split on top of the equal steps
+SK_RSO = 40011
+SK_LON_GUARD_DEG = 2.0  # slots closer than this to the +-180 deg meridian are moved by 10 deg (longitude wrap: not C03's subject)
+# name: (regime, routines, longitude offset from the slot at the start of the span [deg], semi-major axis offset [km],
+#        inclination [deg], eccentricity of slot and start state, expected burns two-body, expected burns SP).
+# Expected burns follow from the documented thresholds of the keepers (LON_DRIFT 0.5 deg, LAT_DRIFT 1 deg, ALT_DRIFT 2 km,
+# BURN 1e-6 km/s = 0.027 km of semi-major axis at GEO, LEO keeper disabled for an eccentric slot) with the margins below:
+#   none        - the thresholds are not reached anywhere in the span: no burn in any decomposition.  Margins: the
+#                 longitude offsets stay >= 0.048 deg (35 km along the orbit) inside the box including the two-body drift
+#                 1.5 n da / a <= 0.003 deg/h; perturbations move a GEO satellite by < 2 km (0.003 deg) in an hour; the
+#                 latitude of the inclined target stays <= 0.5 deg; LEO offsets are 0 / 1.5 km against 2 km (two-body only)
+#   one_at_t0   - thresholds exceeded at the start, and the burn (n da / 2) restores the slot's semi-major axis to < 0.01 km:
+#                 exactly one burn, at the start of the span, in every decomposition (two-body only)
+#   first_at_t0 - as before, but the osculating semi-major axis keeps moving (SP): further burns may follow
+#   any         - the thresholds are (or may be) crossed inside the span; only the decompositions are compared
+SK_TARGETS = {
+    "geo_on_station": ("geo", ["GEO EW", "GEO NS"], 0.0, 0.0, 0.0, 0.0, "none", "none"),
+    "geo_inside_box_east": ("geo", ["GEO EW"], 0.3, 5.0, 0.0, 0.0, "none", "none"),
+    "geo_inside_box_west": ("geo", ["GEO NS", "GEO EW"], -0.45, -3.0, 0.0, 0.0, "none", "none"),
+    "geo_inclined_half_deg": ("geo", ["GEO NS", "GEO EW"], 0.0, 0.0, 0.5, 0.0, "none", "none"),
+    "geo_outside_box_east": ("geo", ["GEO EW"], 0.6, 5.0, 0.0, 0.0, "one_at_t0", "first_at_t0"),
+    "geo_outside_box_west": ("geo", ["GEO EW", "GEO NS"], -0.6, -5.0, 0.0, 0.0, "one_at_t0", "first_at_t0"),
+    "geo_outside_box_same_sma": ("geo", ["GEO EW"], 0.6, 0.0, 0.0, 0.0, "none", "any"),
+    "geo_leaving_box": ("geo", ["GEO EW"], 0.4995, -5.0, 0.0, 0.0, "any", "any"),  # crosses 0.5 deg about 670 s into the span
+    "leo_on_station": ("leo", ["LEO"], 0.0, 0.0, 51.6, 0.0, "none", "any"),
+    "leo_low_1p5_km": ("leo", ["LEO"], 0.0, -1.5, 51.6, 0.0, "none", "any"),
+    "leo_low_3_km": ("leo", ["LEO"], 0.0, -3.0, 51.6, 0.0, "one_at_t0", "first_at_t0"),
+    "leo_eccentric_low_3_km": ("leo", ["LEO"], 0.0, -3.0, 51.6, 0.01, "none", "none"),
+}
+SK_QUICK_SP_TARGETS = ["geo_on_station", "geo_inside_box_east", "geo_inclined_half_deg", "geo_outside_box_east", "geo_leaving_box",
+                       "leo_on_station", "leo_low_3_km"]
+SK_LEO_A = [6800.0, 7000.0]
 
 
 # ------------------------------------------------------------------------------------------------ lattice
@@ -398,6 +485,8 @@ def items(tier, seed):
                 for i in orbs_t:
                     out.append(["epoch_twin", cfg, method, TWIN_DT, k_add, TWIN_AFTER, seed, _orbit(i, seed)])
                 j += 1
+    # ---- station keeping: one call against every split into equal physics steps (keepers active)
+    out.extend(_sk_items(thorough, seed, jd0))
     # ---- closed-form solver and helpers
     for ch in fw.chunked(all_idx, 15):
         out.append(["universal", [_orbit(i, seed) for i in ch]])
@@ -414,7 +503,90 @@ def items(tier, seed):
     return out
 
 
+def _sk_plan(span, steps):
+    return [float(span), [s for s in steps if s < span and abs(span / s - round(span / s)) < 1e-9]]
+
+
+def _sk_items(thorough, seed, jd0):
+    """["station_keeping", dynamics, integrator, target, t0, jd0, seed, [[span, [steps]], ...]]."""
+    out = []
+    # two-body: every target, both integrators, every start time, every span with every step (a GEO hour costs 10 ms)
+    for method in METHODS:
+        for name in SK_TARGETS:
+            for t0 in (SK_T0_THOROUGH if thorough else SK_T0):
+                out.append(["station_keeping", "twobody", method, name, t0, jd0, seed, [_sk_plan(T, SK_STEPS) for T in SK_SPANS]])
+    # special perturbations: one span per item (a LEO half hour in 60 s steps costs 1.5 s)
+    cfgs = ["sp_g4", "sp_g2sm"] + (["sp_g3all", "sp_g8", "sp_srp"] if thorough else [])
+    for cfg in cfgs:
+        for method in METHODS:
+            full = thorough and cfg in ("sp_g4", "sp_g2sm")  # thorough: every target / start / span for these two, a lean set for the others
+            for name in (SK_TARGETS if full else SK_QUICK_SP_TARGETS + (["leo_eccentric_low_3_km"] if thorough else [])):
+                leo = SK_TARGETS[name][0] == "leo"
+                quiet = SK_TARGETS[name][7] == "none"  # no trigger expected under SP: the targets that decide about new defects
+                for t0 in (SK_T0_THOROUGH if full else SK_T0):
+                    if full:
+                        plans = [[_sk_plan(1800.0, SK_STEPS)], [_sk_plan(600.0, SK_STEPS), _sk_plan(3600.0, SK_STEPS[1:])]]
+                    elif thorough:
+                        plans = [[_sk_plan(1800.0, SK_STEPS)]]
+                    elif leo:
+                        # quick tier, LEO (an SP half hour costs 0.5 s per decomposition with RK45): the 4x4 field only, 300 / 600 s
+                        if cfg != "sp_g4":
+                            continue
+                        plans = [[_sk_plan(1800.0, [300.0, 600.0])]]
+                    elif not quiet:
+                        # quick tier, GEO targets whose thresholds are crossed (every trigger costs a restart; their violations
+                        # fall under known finding F-C03-2): one start time per integrator
+                        if (t0 == 0.0) != (method == "DOP853"):
+                            continue
+                        plans = [[_sk_plan(1800.0, SK_STEPS[1:] if method == "DOP853" else SK_STEPS)]]
+                    else:
+                        # quick tier, GEO targets inside their box: half an hour in every step (DOP853: from 120 s, a 60 s call
+                        # costs it as much as a 300 s one); RK45 from the later start time also an hour in 300 / 600 s and ten
+                        # minutes in 120 / 300 s steps
+                        plans = [[_sk_plan(1800.0, SK_STEPS[1:] if method == "DOP853" else SK_STEPS)]]
+                        if method == "RK45" and t0 > 0.0:
+                            plans.append([_sk_plan(600.0, [120.0, 300.0]), _sk_plan(3600.0, [300.0, 600.0])])
+                    for plan in plans:
+                        out.append(["station_keeping", cfg, method, name, t0, jd0, seed, plan])
+    # the same through a real truth-only Scenario at several physics steps (Sun and Moon move the osculating semi-major
+    # axis of a GEO satellite by more than the 27 m the East/West burn threshold stands for; thorough: every configuration)
+    for cfg in (cfgs if thorough else ["sp_g2sm"]):
+        for method in METHODS:
+            out.append(["station_keeping_scenario", cfg, method, seed])
+    return out
+
+
+def _sk_bounds(tier, seed, its):
+    sk = [it for it in its if it[0] == "station_keeping"]
+    combos = {}
+    for it in sk:
+        key = f"{it[1]}/{it[2]}"
+        for span, steps in it[7]:
+            combos.setdefault(key, set()).add((it[3], it[4], span, tuple(steps)))
+    return {
+        "targets": {name: {"regime": v[0], "routines": v[1], "longitude_offset_deg": v[2], "sma_offset_km": v[3], "inclination_deg": v[4],
+                           "eccentricity": v[5], "expected_burns_two_body": v[6], "expected_burns_sp": v[7]} for name, v in SK_TARGETS.items()},
+        "slot": {"geo_radius_km": SK_A_GEO, "geo_inertial_longitude_at_t0_deg": (100.0 + _phase(seed)[0]) % 360.0, "leo_sma_km": SK_LEO_A[seed % 2],
+                 "antimeridian_guard_deg": SK_LON_GUARD_DEG},
+        "start_times_s": SK_T0_THOROUGH if tier == "thorough" else SK_T0, "spans_s": SK_SPANS, "steps_s": SK_STEPS, "uneven_split": SK_FRAC,
+        "other_decompositions": ["batch_of_one (6,1) + ScenarioTime", "propagateBulk (6,1), grid3"],
+        "dynamics": sorted({it[1] for it in sk}), "sp_targets_quick": SK_QUICK_SP_TARGETS,
+        "target_start_span_steps_combinations": {k: len(v) for k, v in sorted(combos.items())},
+        "items": len(sk),
+        "scenario": {"targets": SKS_TARGETS, "span_s": SKS_SPAN, "physics_steps_s": SKS_PHYSICS, "without_keepers_physics_steps_s": SKS_PHYSICS_NO_KEEPERS,
+                     "compared_at_s": SKS_COMMON, "configs_integrators": sorted({(it[1], it[2]) for it in its if it[0] == "station_keeping_scenario"})},
+        "known_finding": "F-C03-2 (open): triggers arising inside a call are located at integrator step ends; signature suffix /trigger_inside_span",
+    }
+
+
 def _cost(it):
+    if it[0] == "station_keeping_scenario":
+        return 6.0
+    if it[0] == "station_keeping":
+        leo = SK_TARGETS[it[3]][0] == "leo"
+        per_s = (2.8e-6 if it[1] == "twobody" else 6e-5) * (6.0 if leo else 1.0) * (1.0 if it[2] == "RK45" else 0.6)
+        per_call = 1e-3 if it[1] == "twobody" else (0.007 if it[2] == "RK45" else 0.014)
+        return sum((len(steps) + 4) * per_s * span + per_call * sum(span / s for s in steps) for span, steps in it[7]) + 0.05
     if it[0] == "epoch_split":
         return (0.0012 * it[2] + 0.6) * (6800.0 / it[7][0]) ** 0.5 * len(it[3]) / 6.0
     if it[0] == "epoch_twin":
@@ -473,6 +645,7 @@ def bounds(tier, seed):
             "configs_integrators": sorted({(it[1], it[2]) for it in its if it[0] == "epoch_twin"}),
             "items": sum(1 for it in its if it[0] == "epoch_twin"),
         },
+        "station_keeping": _sk_bounds(tier, seed, its),
         "propagation_items": len(props),
         "orbits_per_dynamics_integrator_span": _orbit_counts(props),
         "orbit_span_combinations": sum(len(it[7]) for it in props),
@@ -1295,6 +1468,317 @@ def _run_epoch_twin(res, item):
     return {}
 
 
+# ------------------------------------------------------------------------------------------------ station keeping
+def _sk_elements(name, t0, seed, shift_deg=0.0):
+    """(slot elements, start elements) [a, e, inc, raan, argp, nu] (km, deg) of a station-keeping target.
+
+    GEO: the slot is an equatorial circular orbit of radius SK_A_GEO whose inertial longitude at scenario time 0 is nu0; it
+    turns with the Earth, so at t0 the slot sits at nu0 + n t0, and the start state is placed `dlon` east of it with the
+    semi-major axis offset `da` (inclined targets: node at `raan`, argument of latitude = that inertial longitude - raan, the
+    difference to the true longitude is i^2 / 4 = 0.001 deg).  LEO: the keeper looks at the semi-major axis only."""
+    regime, _routines, dlon, da, inc, ecc = SK_TARGETS[name][:6]
+    p_raan, p_argp, _p_nu = _phase(seed)
+    if regime == "geo":
+        nu0 = (100.0 + p_raan + shift_deg) % 360.0
+        rate = math.degrees(math.sqrt(MU / SK_A_GEO**3))  # deg/s
+        lon = nu0 + rate * t0 + dlon
+        raan = (10.0 + p_argp) % 360.0 if inc else 0.0
+        return [SK_A_GEO, ecc, 0.0, 0.0, 0.0, nu0], [SK_A_GEO + da, ecc, inc, raan, 0.0, (lon - raan) % 360.0]
+    a = SK_LEO_A[seed % 2]
+    raan, argp = (40.0 + p_raan) % 360.0, (70.0 + p_argp) % 360.0
+    rate = math.degrees(math.sqrt(MU / a**3))
+    return [a, ecc, inc, raan, argp, 57.0], [a + da, ecc, inc, raan, argp, (57.0 + rate * t0) % 360.0]
+
+
+def _sk_keepers(routines, slot_state, jd, log):
+    """Keepers built the way the agents build them (Agent._createStationKeepers -> StationKeeper.factory) from the slot state
+    at the scenario start epoch; every burn they hand out is written to `log` as (keeper class, time, |dv|)."""
+    platform = SpacecraftConfig(station_keeping={"routines": list(routines)})
+    keepers = Agent._createStationKeepers(True, SK_RSO, platform, np.array(slot_state, dtype=float), JulianDate(jd))  # noqa: SLF001
+    if len(keepers) != len(routines):
+        raise RuntimeError(f"harness: {len(keepers)} keepers built for routines {routines}")
+    for keeper in keepers:
+        def spy(time_, state_, _orig=keeper.getStateChange, _name=type(keeper).__name__):
+            change = _orig(time_, state_)
+            log.append((_name, float(time_), float(np.linalg.norm(np.asarray(change, dtype=float)[3:]))))
+            return change
+
+        keeper.getStateChange = spy  # instance attribute: Celestial._applyEvents calls event.getStateChange(...)
+    return keepers
+
+
+def _sk_slot(name, t0, seed, jd):
+    """(slot elements, start elements, shift): a GEO slot within SK_LON_GUARD_DEG of the +-180 deg meridian is moved by
+    10 deg (the library's own longitude of the slot; harness guard only, needs an initialised key-value store)."""
+    shift = 0.0
+    for _ in range(4):
+        slot_el, start_el = _sk_elements(name, t0, seed, shift)
+        if SK_TARGETS[name][0] != "geo":
+            break
+        probe = _sk_keepers(["GEO EW"], _state(slot_el), jd, [])[0]
+        if abs(abs(math.degrees(probe.initial_lon)) - 180.0) > SK_LON_GUARD_DEG:
+            break
+        shift += 10.0
+    return slot_el, start_el, shift
+
+
+def _sk_drain():
+    """Pop the EventStack records the burns pushed into the key-value store."""
+    out = []
+    while len(out) < 100000:
+        rec = KeyValueStore.popValue(EventStack.EVENT_STACK_LOCATION, 0)
+        if not rec:
+            break
+        rec = EventRecord.fromSerial(rec)
+        out.append((str(rec.event_type), int(rec.performer)))
+    return out
+
+
+def _sk_decomposition(dyn, routines, slot_state, x0, jd, legs, *, how="propagate"):
+    """One decomposition of the span: consecutive propagate calls over `legs` = [t0, t1, ..., tN], each preceded by what
+    PropagateRegistration.generateSubmission does (reductions of the call's start instant handed to every keeper).
+    how = "batch_of_one": the state goes in as a (6, 1) block with ScenarioTime arguments; "bulk": one propagateBulk call
+    with the legs as output times.  Returns {"state", "burns", "records"} or the exception."""
+    log = []
+    try:
+        keepers = _sk_keepers(routines, slot_state, jd, log)
+        state = np.array(x0, dtype=float)
+        if how == "bulk":
+            red = ReductionParams.build(_abs_dt(jd) + timedelta(seconds=legs[0]))
+            for keeper in keepers:
+                keeper.reductions = red
+            # the documented (6, K) layout with K = 1
+            out = _call(dyn.propagateBulk, [float(t) for t in legs], state.reshape(6, 1).copy(), station_keeping=keepers)
+            if _bad(out):
+                raise out
+            out = np.asarray(out)
+            if out.shape != (6, 1, len(legs) - 1):
+                raise ValueError(f"propagateBulk returned shape {out.shape}")
+            state = out[:, 0, -1]
+        else:
+            for ta, tb in zip(legs, legs[1:]):
+                red = ReductionParams.build(_abs_dt(jd) + timedelta(seconds=ta))
+                for keeper in keepers:
+                    keeper.reductions = red
+                if how == "batch_of_one":
+                    state = _call(dyn.propagate, ScenarioTime(ta), ScenarioTime(tb), np.array(state, dtype=float).reshape(6, 1), station_keeping=keepers)
+                else:
+                    state = _call(dyn.propagate, float(ta), float(tb), np.array(state, dtype=float), station_keeping=keepers)
+                if _bad(state):
+                    raise state
+        return {"state": np.asarray(state, dtype=float), "burns": list(log), "records": _sk_drain()}
+    except Exception as exc:  # noqa: BLE001 - an exception on a lattice point is a reported outcome
+        _sk_drain()
+        return exc
+
+
+def _sk_burns_json(burns, t0):
+    return [[b[0], round(b[1] - t0, 6), b[2]] for b in burns[:12]] + ([f"... {len(burns)} in all"] if len(burns) > 12 else [])
+
+
+def _run_station_keeping(res, item):
+    _, kind, method, name, t0, jd, seed, plan = item
+    t0, jd, seed = float(t0), float(jd), int(seed)
+    regime, routines, dlon, da, inc, ecc, exp_tb, exp_sp = SK_TARGETS[name]
+    two_body = kind == "twobody"
+    expect = exp_tb if two_body else exp_sp
+    scen.fresh()
+    setDBPath("sqlite://")
+    slot_el, start_el, shift = _sk_slot(name, t0, seed, jd)
+    slot, x0 = _state(slot_el), _state(start_el)
+    a, e = start_el[0], start_el[1]
+    dyn = _dynamics(kind, method, jd)
+    ratios = {}
+    root = "C03/station_keeping"
+    tag = f"{kind}/{method}/{name}"
+
+    def base(ctx, **kw):
+        d = ctx.base(start_el, target=name, routines="+".join(routines), expected_burns=expect, slot_shift_deg=shift)
+        d.update(kw)
+        return d
+
+    for span, steps in plan:
+        span = float(span)
+        ctx = _Ctx(res, item, kind, method, span, t0)
+        ctx.ratios = ratios
+        tp, tv = ctx.tp(a, e), ctx.tv(a, e)
+        t2 = t0 + span
+        whole = _sk_decomposition(dyn, routines, slot, x0, jd, [t0, t2])
+        if _bad(whole):
+            res.case("sk_split", base(ctx, decomposition="whole"), False, nontrivial=True, signature=f"{root}/split_state/{tag}/whole_call/exception/{type(whole).__name__}",
+                     observed=repr(whole)[:200], expected="a state", item=item)
+            continue
+        res.observe(whole["state"], [b[1] for b in whole["burns"]])
+        decomps = [("whole", 1, whole)]
+        for step in [float(s) for s in steps]:
+            n = int(round(span / step))
+            legs = [t0 + k * step for k in range(n)] + [t2]
+            decomps.append((f"steps_{step:g}", n, _sk_decomposition(dyn, routines, slot, x0, jd, legs)))
+        decomps.append((f"two_legs_{SK_FRAC:g}", 2, _sk_decomposition(dyn, routines, slot, x0, jd, [t0, t0 + SK_FRAC * span, t2])))
+        decomps.append(("batch_of_one", 1, _sk_decomposition(dyn, routines, slot, x0, jd, [t0, t2], how="batch_of_one")))
+        decomps.append(("propagateBulk_grid3", 1, _sk_decomposition(dyn, routines, slot, x0, jd, [t0] + [t0 + f * span for f in GRID3], how="bulk")))
+        for label, n_legs, got in decomps:
+            case = base(ctx, decomposition=label, legs=n_legs)
+            if _bad(got):
+                res.case("sk_split", case, False, nontrivial=True, signature=f"{root}/split_state/{tag}/exception/{type(got).__name__}",
+                         observed=repr(got)[:200], expected="a state", item=item)
+                continue
+            burns = got["burns"]
+            # -- (1) the burns the keepers' documented thresholds call for (independent classification of the target)
+            t_tol0 = 1e-6  # s: a trigger that is already set at the start of a call is applied at that very time (rounding of t0 only)
+            verdict = "as_expected"
+            if expect == "none" and burns:
+                verdict = "unexpected_burn"
+            elif expect in ("one_at_t0", "first_at_t0") and not burns:
+                verdict = "missing_burn"
+            elif expect in ("one_at_t0", "first_at_t0") and abs(burns[0][1] - t0) > t_tol0:
+                verdict = "burn_not_at_start"
+            elif expect == "one_at_t0" and len(burns) > 1:
+                verdict = "unexpected_burn"
+            if expect != "any":
+                res.case("sk_expected", case, verdict == "as_expected", nontrivial=True, signature=f"{root}/expected_burns/{tag}/{verdict}",
+                         observed={"burns": _sk_burns_json(burns, t0)}, expected=expect, outcome=f"{expect}/{verdict}", item=item)
+            # -- (2) the two observation channels agree: one EventStack record per burn, performed by this satellite
+            recs = got["records"]
+            res.case("sk_records", case, len(recs) == len(burns) and all(r[1] == SK_RSO for r in recs), nontrivial=bool(burns),
+                     signature=f"{root}/event_records/{tag}", observed={"records": len(recs), "burns": len(burns), "types": sorted({r[0] for r in recs})},
+                     expected="one record per burn", item=item)
+            if label == "whole":
+                continue
+            # -- (3) the decomposition against the single call: state, number / times / sizes of the burns
+            inside = [b for b in burns + whole["burns"] if b[1] - t0 > t_tol0]
+            # a burn strictly inside the span for a target whose thresholds are (or may be) crossed there: such a trigger is
+            # found at the end of the integrator step that saw it (flag-valued event function), see known finding F-C03-2
+            suffix = "/trigger_inside_span" if (inside and expect in ("any", "first_at_t0")) else ""
+            differs = True  # >= 2 legs, or another entry point / layout of the same call
+            kind_of = "layout" if n_legs == 1 else "steps"
+            state = got["state"]
+            if state.shape != (6,) or not np.all(np.isfinite(state)):
+                res.case("sk_split", case, False, nontrivial=differs, signature=f"{root}/split_state/{tag}/{kind_of}/shape_or_nonfinite",
+                         observed={"shape": list(state.shape)}, expected={"shape": [6]}, item=item)
+                continue
+            ep, ev = fw.maxabs(state[:3], whole["state"][:3]), fw.maxabs(state[3:], whole["state"][3:])
+            ok_s = ep <= tp and ev <= tv
+            if not suffix:  # the margin report is about the tolerances, not about known finding F-C03-2
+                ctx.ratio("sk_split", max(ep / tp, ev / tv))
+            res.observe(state)
+            res.case("sk_split", case, ok_s, nontrivial=differs, signature=f"{root}/split_state/{tag}/{kind_of}{suffix}",
+                     observed={"pos_err_km": ep, "vel_err_kms": ev, "state": state, "burns": _sk_burns_json(burns, t0)},
+                     expected={"tol_km": tp, "tol_kms": tv, "state": whole["state"], "burns": _sk_burns_json(whole["burns"], t0)},
+                     outcome="within" if ok_s else "outside", item=item)
+            same_n = len(burns) == len(whole["burns"])
+            worst_dt, worst_dv, ok_b = 0.0, 0.0, same_n
+            if same_n:
+                for b, w in zip(burns, whole["burns"]):
+                    # a burn dv applied dt earlier or later moves the state by dv dt: the times must agree to tp / dv
+                    t_tol = max(tp / max(b[2], w[2], 1e-300), t_tol0)
+                    worst_dt = max(worst_dt, abs(b[1] - w[1]) / t_tol)
+                    worst_dv = max(worst_dv, abs(b[2] - w[2]) / tv)
+                    ok_b = ok_b and b[0] == w[0] and abs(b[1] - w[1]) <= t_tol and abs(b[2] - w[2]) <= tv
+            res.case("sk_burns", case, ok_b, nontrivial=differs and bool(burns or whole["burns"]), signature=f"{root}/burn_sequence/{tag}/{'count' if not same_n else 'times'}{suffix}",
+                     observed={"burns": _sk_burns_json(burns, t0), "time_err_over_tol": worst_dt, "dv_err_over_tol": worst_dv},
+                     expected={"burns": _sk_burns_json(whole["burns"], t0)}, outcome=f"n={min(len(burns), 3)}/{'same' if ok_b else 'differs'}", item=item)
+    res.case("input_unchanged", {"dyn": kind, "method": method, "target": name, "family": "station_keeping"}, bool(np.array_equal(x0, _state(start_el))),
+             signature=f"C03/input_mutated/{kind}/station_keeping", item=item)
+    return ratios
+
+
+SKS_TARGETS = {50001: "geo_on_station", 50002: "geo_inclined_half_deg", 50003: "leo_eccentric_low_3_km"}  # slot = initial state
+SKS_SPAN = 1800.0
+SKS_COMMON = 600.0  # the truth states are compared at the multiples of this time
+SKS_PHYSICS = [600, 300, 60]
+SKS_PHYSICS_NO_KEEPERS = [600, 300]
+
+
+def _run_sk_scenario(res, item):
+    """Truth of station-kept satellites in a real truth-only Scenario (global station_keeping on, routines in the platform
+    configuration, PropagateRegistration.generateSubmission hands the reductions over) at several physics steps: the truth
+    at the common times must not depend on the step (TruthEphemeris rows at different step sizes), and a satellite that
+    stays inside its box (the slot is its own initial state; half an hour) must fly exactly like the same satellite
+    without keepers: an event function that never triggers does not touch the integrator's steps (bit-identical)."""
+    _, kind, method, seed = item
+    seed = int(seed)
+    deg, order, bodies, srp, gr = SP_CFG[kind]
+    start = _start_dt(seed)
+    scen.fresh()
+    setDBPath("sqlite://")
+    elements = {tid: _sk_slot(name, 0.0, seed, _jd0(seed))[0] for tid, name in SKS_TARGETS.items()}
+    states = {tid: _state(el) for tid, el in elements.items()}
+    root = "C03/station_keeping"
+    ratios = {}
+
+    def run(dt, keepers_on):
+        targets = []
+        for tid, name in SKS_TARGETS.items():
+            spec = scen.target_eci(tid, states[tid][:3], states[tid][3:], station_keeping=SK_TARGETS[name][1])
+            spec["platform"].update({k: v for k, v in ES_PLATFORM.items() if k != "type"})
+            targets.append(spec)
+        cfg = scen.config(
+            start, int(round(SKS_SPAN / dt)), [scen.engine(TWIN_ENGINE, targets, [scen.ground_sensor(TWIN_GROUND, 10.0, 20.0)])],
+            physics=int(dt), truth_only=True, model="special_perturbations", integrator=method, station_keeping=keepers_on, seed=11,
+            geopotential={"model": ES_MODEL, "degree": deg, "order": order},
+            perturbations={"third_bodies": list(bodies), "solar_radiation_pressure": srp, "general_relativity": gr},
+        )
+        app = scen.build(cfg)
+        built = {tid: [type(k).__name__ for k in app.target_agents[tid].station_keeping] for tid in SKS_TARGETS}
+        out = {}
+        n_common = int(round(SKS_COMMON / dt))
+        for j in range(1, int(round(SKS_SPAN / dt)) + 1):
+            app.propagateTo(datetimeToJulianDate(start + timedelta(seconds=j * dt)))
+            if j % n_common == 0:
+                out[j * dt] = {tid: np.array(app.target_agents[tid].eci_state, dtype=float) for tid in SKS_TARGETS}
+        return out, built
+
+    runs = {}
+    for dt in SKS_PHYSICS:
+        runs[(dt, True)] = _call(run, float(dt), True)
+    for dt in SKS_PHYSICS_NO_KEEPERS:
+        runs[(dt, False)] = _call(run, float(dt), False)
+    for (dt, on), got in runs.items():
+        if _bad(got):
+            res.case("sk_scenario", {"dyn": kind, "method": method, "physics_step": dt, "station_keeping": on}, False, nontrivial=True,
+                     signature=f"{root}/scenario/{kind}/{method}/exception/{type(got).__name__}", observed=repr(got)[:200], expected="a run", item=item)
+    if any(_bad(g) for g in runs.values()):
+        return ratios
+    fine = runs[(SKS_PHYSICS[-1], True)][0]
+    for tid, name in SKS_TARGETS.items():
+        el = elements[tid]
+        a, e = el[0], el[1]
+
+        def case(**kw):
+            d = {"dyn": kind, "method": method, "target": name, "a": a, "e": e, "inc": el[2], "raan": round(el[3], 6), "argp": round(el[4], 6), "nu": round(el[5], 6)}
+            d.update(kw)
+            return d
+
+        want_keepers = {"GEO EW": "KeepGeoEastWest", "GEO NS": "KeepGeoNorthSouth", "LEO": "KeepLeoUp"}
+        for (dt, on), (_out, built) in runs.items():
+            expect_k = sorted(want_keepers[r] for r in SK_TARGETS[name][1]) if on else []
+            res.case("sk_scenario", case(physics_step=dt, station_keeping=on), sorted(built[tid]) == expect_k, nontrivial=on,
+                     signature=f"{root}/scenario_keepers_built/{kind}/{method}/{name}", observed=built[tid], expected=expect_k, item=item)
+        for k in range(1, int(round(SKS_SPAN / SKS_COMMON)) + 1):
+            T = k * SKS_COMMON
+            ctx = _Ctx(res, item, kind, method, T, 0.0)
+            ctx.ratios = ratios
+            tp, tv = ctx.tp(a, e), ctx.tv(a, e)
+            res.observe(fine[T][tid])
+            # (a) truth at the common times against the finest physics step
+            for dt in SKS_PHYSICS[:-1]:
+                got = runs[(dt, True)][0][T][tid]
+                ep, ev = fw.maxabs(got[:3], fine[T][tid][:3]), fw.maxabs(got[3:], fine[T][tid][3:])
+                ctx.ratio("sk_scenario", max(ep / tp, ev / tv))
+                res.case("sk_scenario", case(elapsed=T, physics_step=dt, against_physics_step=SKS_PHYSICS[-1]), ep <= tp and ev <= tv, nontrivial=True,
+                         signature=f"{root}/scenario_step_size/{kind}/{method}/{name}", observed={"pos_err_km": ep, "vel_err_kms": ev, "state": got},
+                         expected={"tol_km": tp, "tol_kms": tv, "state": fine[T][tid]}, outcome="within" if ep <= tp and ev <= tv else "outside", item=item)
+            # (b) with keepers that have nothing to do == without keepers, same physics step
+            for dt in SKS_PHYSICS_NO_KEEPERS:
+                got, want = runs[(dt, True)][0][T][tid], runs[(dt, False)][0][T][tid]
+                same = bool(np.array_equal(got, want))
+                res.case("sk_scenario", case(elapsed=T, physics_step=dt), same, nontrivial=True, signature=f"{root}/scenario_quiet_keeper/{kind}/{method}/{name}",
+                         observed={"pos_diff_km": fw.maxabs(got[:3], want[:3]), "state": got}, expected={"pos_diff_km": 0.0, "state": want},
+                         outcome="identical" if same else "differs", item=item)
+    return ratios
+
+
 # ------------------------------------------------------------------------------------------------ closed-form solver
 def _tol_universal(x0, state_ref, mu):
     """Error budget of solveKeplerProblemUniversal, derived from its stopping rule.
@@ -1557,6 +2041,10 @@ def run_item(item):
         ratios = _run_epoch_split(res, item)
     elif kind == "epoch_twin":
         ratios = _run_epoch_twin(res, item)
+    elif kind == "station_keeping":
+        ratios = _run_station_keeping(res, item)
+    elif kind == "station_keeping_scenario":
+        ratios = _run_sk_scenario(res, item)
     elif kind == "universal":
         ratios = _run_universal(res, item)
     elif kind == "universal_branches":
@@ -1573,6 +2061,10 @@ def run_item(item):
         res.ratio_group = f"{item[1]}/{item[2]}/T={item[3]:g}"
     elif kind == "epoch_split":
         res.ratio_group = f"epoch_split/{item[1]}/span={item[2]:g}/a={item[7][0]:g}" + ("/ms_start" if len(item) > 8 and item[8] else "")
+    elif kind == "station_keeping":
+        res.ratio_group = f"station_keeping/{item[1]}/{item[2]}/{item[3]}/t0={item[4]:g}"
+    elif kind == "station_keeping_scenario":
+        res.ratio_group = f"station_keeping_scenario/{item[1]}/{item[2]}"
     return res
 
 
